@@ -59,7 +59,13 @@ def run(prop, tier, replay=None):
         inter = [json.loads(t) for t in sorted({f[0] for f in r3.printed("REPLAY")})]
         inter = [v for v in inter if not any(t["detached"] for t in v["hist"][:2])]      # the first two must leave their state behind
         ninter = 250 if tier == "quick" else len(inter)
-        inter = inter if len(inter) <= ninter else rnd.sample(inter, ninter)
+        # always run: define a function / an alias in the first two test cases (either order), look in the third -- the
+        # order in which functions and aliases are restored shows there
+        fa = lambda t: len(t["ops"]) == 1 and t["ops"][0]["op"] in ("deffunc", "defalias", "unalias", "unsetfunc")
+        must = [v for v in inter if len(v["hist"]) == 3 and fa(v["hist"][0]) and fa(v["hist"][1]) and not v["hist"][2]["ops"]]
+        rest = [v for v in inter if v not in must]
+        inter = must + (rest if len(rest) <= ninter else rnd.sample(rest, ninter))
+        cov["histories_function_alias_order"] = len(must)
         # persist family: option on / one representative operation / look -- complete in both tiers
         cfg4 = os.path.join(work, "GEN_persist.cfg")
         with open(cfg4, "w") as f:
